@@ -127,52 +127,60 @@ Definition max_likely_to_work_cl (known_ok : Z) (previous_cl : consistency) : de
 
 (* DowngradingConsistencyRetrySession::decide_should_retry ; the session is the single flag
    `was_retry`.  Note that the flag is set BEFORE the inner decision is computed: it is also
-   set when that decision turns out to be DontRetry / IgnoreWriteError. *)
+   set when that decision turns out to be DontRetry / IgnoreWriteError.
+
+   `let cl = match request_info.consistency { Serial | LocalSerial => return <down_serial>,
+   cl => cl };` followed by the big match = <down_nonserial cl>. *)
+Definition down_serial (was_retry : bool) (ri : request_info) : bool * decision :=
+  match ri_error ri with
+  | EDbError (DbUnavailable _ _) => (was_retry, RetryNextTarget None)
+  | _ => (was_retry, DontRetry)
+  end.
+
+Definition down_nonserial (cl : consistency) (was_retry : bool) (ri : request_info)
+  : bool * decision :=
+  match ri_error ri with
+  | EBrokenConnectionError =>
+      (was_retry, if ri_idempotent ri then RetryNextTarget None else DontRetry)
+  | EDbError db =>
+      match db with
+      | DbOverloaded | DbServerError | DbTruncateError =>
+          (was_retry, if ri_idempotent ri then RetryNextTarget None else DontRetry)
+      | DbUnavailable _ alive =>
+          if negb was_retry then (true, max_likely_to_work_cl alive cl)
+          else (was_retry, DontRetry)
+      | DbReadTimeout received required data_present =>
+          if was_retry then (was_retry, DontRetry)
+          else if received <? required then (true, max_likely_to_work_cl received cl)
+          else if negb data_present then (true, RetrySameTarget None)
+          else (was_retry, DontRetry)
+      | DbWriteTimeout received _ wt =>
+          if was_retry || negb (ri_idempotent ri) then (was_retry, DontRetry)
+          else (true,
+                match wt with
+                | WBatch | WSimple =>
+                    if received >? 0 then IgnoreWriteError else DontRetry
+                | WUnloggedBatch => max_likely_to_work_cl received cl
+                | WBatchLog => RetrySameTarget None
+                | WCounter | WCas | WView | WCdc | WOther => DontRetry
+                end)
+      | DbIsBootstrapping => (was_retry, RetryNextTarget None)
+      | DbSyntaxError | DbInvalid | DbAlreadyExists | DbFunctionFailure
+      | DbAuthenticationError | DbUnauthorized | DbConfigError | DbReadFailure
+      | DbWriteFailure | DbUnprepared | DbProtocolError | DbRateLimitReached
+      | DbOther => (was_retry, DontRetry)
+      end
+  | EUnableToAllocStreamId => (was_retry, RetryNextTarget None)
+  | EBodyExtensionsParseError | ECqlErrorParseError | ECqlRequestSerialization
+  | ECqlResultParseError | ENonfinishedPagingState | ERepreparedIdChanged
+  | ERepreparedIdMissingInBatch | ESerializationError | EUnexpectedResponse =>
+      (was_retry, DontRetry)
+  end.
+
 Definition down_decide (was_retry : bool) (ri : request_info) : bool * decision :=
   match ri_consistency ri with
-  | CSerial | CLocalSerial =>
-      match ri_error ri with
-      | EDbError (DbUnavailable _ _) => (was_retry, RetryNextTarget None)
-      | _ => (was_retry, DontRetry)
-      end
-  | cl =>
-      match ri_error ri with
-      | EBrokenConnectionError =>
-          (was_retry, if ri_idempotent ri then RetryNextTarget None else DontRetry)
-      | EDbError db =>
-          match db with
-          | DbOverloaded | DbServerError | DbTruncateError =>
-              (was_retry, if ri_idempotent ri then RetryNextTarget None else DontRetry)
-          | DbUnavailable _ alive =>
-              if negb was_retry then (true, max_likely_to_work_cl alive cl)
-              else (was_retry, DontRetry)
-          | DbReadTimeout received required data_present =>
-              if was_retry then (was_retry, DontRetry)
-              else if received <? required then (true, max_likely_to_work_cl received cl)
-              else if negb data_present then (true, RetrySameTarget None)
-              else (was_retry, DontRetry)
-          | DbWriteTimeout received _ wt =>
-              if was_retry || negb (ri_idempotent ri) then (was_retry, DontRetry)
-              else (true,
-                    match wt with
-                    | WBatch | WSimple =>
-                        if received >? 0 then IgnoreWriteError else DontRetry
-                    | WUnloggedBatch => max_likely_to_work_cl received cl
-                    | WBatchLog => RetrySameTarget None
-                    | WCounter | WCas | WView | WCdc | WOther => DontRetry
-                    end)
-          | DbIsBootstrapping => (was_retry, RetryNextTarget None)
-          | DbSyntaxError | DbInvalid | DbAlreadyExists | DbFunctionFailure
-          | DbAuthenticationError | DbUnauthorized | DbConfigError | DbReadFailure
-          | DbWriteFailure | DbUnprepared | DbProtocolError | DbRateLimitReached
-          | DbOther => (was_retry, DontRetry)
-          end
-      | EUnableToAllocStreamId => (was_retry, RetryNextTarget None)
-      | EBodyExtensionsParseError | ECqlErrorParseError | ECqlRequestSerialization
-      | ECqlResultParseError | ENonfinishedPagingState | ERepreparedIdChanged
-      | ERepreparedIdMissingInBatch | ESerializationError | EUnexpectedResponse =>
-          (was_retry, DontRetry)
-      end
+  | CSerial | CLocalSerial => down_serial was_retry ri
+  | cl => down_nonserial cl was_retry ri
   end.
 
 (* ---- fallthrough.rs ----------------------------------------------------- *)
